@@ -41,6 +41,10 @@ PeriodArgs(kind) ==
          \cup (IF kind \in AllocFree
                THEN {[i \in 1..k |-> IF i = j THEN BigTokens[b] ELSE "7"] : j \in 1..k, b \in 1..5}
                     \cup {[i \in 1..k |-> IF i = j THEN "0" ELSE BigTokens[5]] : j \in 1..k}
+                    \* several huge periods at once (arithmetic across the arguments), with and without a small one
+                    \cup {[i \in 1..k |-> BigTokens[b]] : b \in 1..5}
+                    \cup {[i \in 1..k |-> IF i = j THEN "9" ELSE BigTokens[b]] : j \in 1..k, b \in {2, 5}}
+                    \cup {[i \in 1..k |-> IF i = j THEN "0" ELSE BigTokens[2]] : j \in 1..k}
                ELSE {})
 
 CasesOf(kind) == {[kind |-> kind, per |-> p, mult |-> m] :
